@@ -8,6 +8,11 @@ HOOK_COMMITS = ["204cfe3", "2edc694", "e1d8638"]
 
 # id -> (category, technique, level text, level note, design ref)
 CHECKS = {
+ "C12": ("exploration",
+         "runtime oracle on the real encoder/decoder (round trip of generated snapshots) + hostile-input monitoring in child processes: every truncation / bit flip / tail / length attack of a real snapshot file opened through OpenReader and OpenWriter with both loaders, allocation measured, faults observed as child deaths",
+         "Generated snapshots (0..300 segments, ids to 2^64-1, bitmaps to thousands of entries, encodings well beyond the 4096-byte read buffer) must read back equal; every damaged variant of the newest snapshot of a real directory must be rejected without a fault, within an allocation budget, and lead to the older intact snapshot (epoch and content checked); decoder-level attacks run straight into ReadFrom under an address-space limit. Exhaustive over truncations and single-bit flips of the file used; sampled otherwise.",
+         "Trusts: child-process observation (a dead child = fault), runtime.MemStats for allocation. Segment type strings of >= 3 characters (the bundled plugins use \"ice\").",
+         "DESIGN.md §4 C12"),
  "C08": ("exploration",
          "differential runtime oracle: the same document multiset built by 13 physical recipes, every build answering the same generated requests, canonical answers compared pairwise against the one-batch build",
          "For generated corpora (including the empty one) every recipe (batch partitioning, ice v1/v2, optimisations off, merge-happy memory/disk, reopen, Backup+OpenReader, OfflineWriter, histories with deletions, MultiSearch over partitions, score mode none) must give the same id multiset, stored fields, distinct-key order and aggregations, and bit-comparable scores when neither side has merged segments or pending deletions. Held on the corpora, recipes and requests explored.",
